@@ -726,7 +726,9 @@ func (b *BFT) SafeNode(msg *Message) lib.ErrorI {
 		return nil // SAFETY (SAME PROPOSAL AS LOCKED)
 	}
 	// if the view of the Locked proposal is older than the Leader's message
-	if msg.HighQc.Header.Round > b.HighQC.Header.Round {
+	// NOTE: views are ordered by (height, root height, round): a committee-preserving root-chain update restarts
+	// the round counter, so comparing rounds alone would let a certificate from an older root height unlock a newer lock
+	if b.HighQC.Header.Less(msg.HighQc.Header) {
 		b.log.Infof("Proposal %s satisfied the safe node predicate with LIVENESS", lib.BytesToTruncatedString(b.HighQC.BlockHash))
 		return nil // LIVENESS (HIGHER ROUND v COMMITTEE THAN LOCKED)
 	}
